@@ -197,10 +197,10 @@ func (d *Dump) View() *View {
 				a.Coins, a.HasPub = ba.Coins, ba.PubKey != nil
 			} else {
 				var ma authTypes.ModuleAccount
-				if err2 := cdc.UnmarshalBinaryBare(val, &ma, h); err2 == nil && bytes.Equal(ma.GetAddress(), addr) {
+				if err2 := cdc.UnmarshalBinaryBare(val, &ma, h); err2 == nil && ma.BaseAccount != nil && bytes.Equal(ma.GetAddress(), addr) {
 					a.Coins, a.Module = ma.GetCoins(), ma.Name
 				} else {
-					v.Errors = append(v.Errors, fmt.Sprintf("account %s undecodable", addr))
+					v.Errors = append(v.Errors, fmt.Sprintf("account %s undecodable (%d bytes: %x)", addr, len(val), trunc(val)))
 					continue
 				}
 			}
